@@ -85,7 +85,14 @@ impl Client {
             match &data_map_level {
                 DataMapLevel::First(_) => break Ok(data),
                 DataMapLevel::Additional(_) => {
-                    data_map_level = rmp_serde::from_slice(&data).map_err(|err| {
+                    // `pack_data_map` self-encrypts the previous level's data map *chunk* as serialised
+                    // by `Chunk::serialize` (the chunk's value wrapped as a byte string), not the bare
+                    // `DataMapLevel` bytes: unwrap the chunk first, then read the level it holds.
+                    let chunk: Chunk = rmp_serde::from_slice(&data).map_err(|err| {
+                        error!("Error deserializing data map chunk: {err:?}");
+                        GetError::InvalidDataMap(err)
+                    })?;
+                    data_map_level = rmp_serde::from_slice(chunk.value()).map_err(|err| {
                         error!("Error deserializing data map: {err:?}");
                         GetError::InvalidDataMap(err)
                     })?;
